@@ -7,7 +7,7 @@
     calls on [Context::default()] (panicking calls included: the history goes on);
     [cx_run_op o] is one call.  All statements are for ARBITRARY histories. *)
 From Coq Require Import NArith String List.
-From Patronus Require Import Context ContextOracle ContextProofs ContextOracleProofs ContextDenotesProofs.
+From Patronus Require Import Expr Context ContextOracle ContextTree ContextProofs ContextOracleProofs ContextDenotesProofs ContextTreeProofs.
 Import ListNotations.
 Open Scope N_scope.
 
@@ -119,6 +119,26 @@ Theorem C12_returned_reference_denotes_request :
 Proof. exact denotes_lemma. Qed.
 Print Assumptions C12_returned_reference_denotes_request.
 
+(** DAG versus trees: [cx_tree] unfolds a reference into the tree type of Model/Expr.v
+    (the type all other properties reason about; names and literal VALUES resolved, sharing
+    expanded).  In every context reachable with machine-word literals, two references
+    that unfold to the same tree are the same reference: reference equality IS structural
+    equality of the denoted expressions, at any depth. *)
+Theorem C12_tree_canonical :
+  forall ops, forallb cx_op_words_ok ops = true ->
+    let c := cx_exec ops cx_default in
+    forall f1 r1 f2 r2 t, cx_tree f1 c r1 = Some t -> cx_tree f2 c r2 = Some t -> r1 = r2.
+Proof. exact tree_canonical_lemma. Qed.
+Print Assumptions C12_tree_canonical.
+
+(** ... and the tree a reference stands for is never changed by a later history. *)
+Theorem C12_tree_stable :
+  forall ops1 ops2 f r t,
+    let c := cx_exec ops1 cx_default in
+    cx_tree f c r = Some t -> cx_tree f (cx_exec ops2 c) r = Some t.
+Proof. exact tree_stable_lemma. Qed.
+Print Assumptions C12_tree_stable.
+
 (** The extracted property oracle (Model/ContextOracle.v), which the driver evaluates on
     the IMPLEMENTATION's observations, is passed by the model on every well-formed history
     ([cx_hist_ok]: [symbol(name, ..)] is only called with a name reference that exists, as the
@@ -156,7 +176,11 @@ Example C12_example :
   cx_key_of c (CnBVSymbol 0 8) = CkSym (Some "a"%string) 8 /\
   cx_true c = 1 /\ cx_false c = 0 /\
   cx_hist_ok C12_example_history cx_default = true /\
-  cx_observe C12_example_history cx_default <> [].
+  cx_observe C12_example_history cx_default <> [] /\
+  forallb cx_op_words_ok C12_example_history = true /\
+  cx_tree 5 c 7 =
+    Some (BVXor (BVXor (BVSymbol "a" 8) (BVSymbol "a" 8) 8) (BVSymbol "a" 8) 8) /\
+  cx_tree 5 c 4 = Some (BVLiteral 65 (2 ^ 64 + 5)).
 Proof. vm_compute. repeat split. discriminate. Qed.
 
 (** the recorded finding, in the model: the words baa's shift_left leaves for
